@@ -163,7 +163,7 @@ func init() {
 		profile: func(rng *rand.Rand, tier string) world.Profile {
 			p := baseProfile(rng)
 			p.Blocks = 35 + rng.Intn(40)
-			p.StartEra = []int{3, eraV4, eraV20 - 1, eraV20Dev, eraPIP10 - 1}[rng.Intn(5)]
+			p.StartEra = []int{eraTxConv, eraTxConv, eraV4, eraV20 - 1, eraV20Dev, eraPIP10 - 1}[rng.Intn(6)]
 			p.PConv, p.TxMean = 0.9, 3+3*rng.Float64()
 			p.POutage, p.OutageMax = 0.1, 1+rng.Intn(6)
 			p.AvgPeriod = []uint64{6, 12}[rng.Intn(2)]
